@@ -7,7 +7,7 @@ RULE = ("E1: Pseudo over Semver - Make by the five documented forms with decimal
         "pairs. Bases: none, v1.2.3, shortened, v0.0.0, patch 9 / 99 / 25 nines, prereleases (pre, 0, a-b, pre.1, 0.0), +incompatible, "
         "+meta, two-digit fields, invalid strings; times at the year edges 1, 999, 1000, 9999, equal and adjacent seconds; zones -13h..+13h "
         "with half hours; sub-second parts. E2: each case replayed into PseudoVersion, IsPseudoVersion, PseudoVersionBase/Time/Rev and "
-        "semver.Compare. E3: random bases from the semver generator, random times and zones, recomputed by PseudoTrace. "
+        "semver.Compare; the placeholder ZeroPseudoVersion(major) and IsZeroPseudoVersion of every generated version are compared as well. E3: random bases from the semver generator, random times and zones, recomputed by PseudoTrace. "
         "Non-trivial = case with a valid base version.")
 
 
